@@ -17,5 +17,5 @@ CONSTANTS
   MaxOps = 16
   Deterministic = FALSE
   Manual = TRUE
-INVARIANTS TypeOK SweeperArmed ReadStreamIsRetainedSuffix ReadStateIsRefPage PageAfterCursor OrderedFlagFollowsOptions
+INVARIANTS TypeOK SweeperArmed SubscriberConverges ReadStreamIsRetainedSuffix ReadStateIsRefPage PageAfterCursor OrderedFlagFollowsOptions
 CHECK_DEADLOCK FALSE
